@@ -15,7 +15,10 @@ Decided here (TLA+ oracles specs/Half.tla, specs/HalfTrans.tla, evaluated by TLC
   * the C99 Annex F special cases (NaN, +-inf, +-0, domain and pole errors) of every other function, on all 65 536
     halves (unary) and on S x S (atan2, pow, hypot), plus the arguments whose mathematical result is itself a half
     (exp2 of integers, log2 of powers of two, log10 of powers of ten), which "exact to rounding" forces;
-  * all of the above (except the real-function tables) once more while the calling thread's rounding direction is upward / downward /
+  * both outputs of sincos(x, &s, &c) on all 65 536 arguments against the stand-alone sin(x) and cos(x) (HalfCheck "sincos_routes": the
+    correctly rounded value is unique, so the two routes must agree), and against the enclosure over the argument sets of sin and of cos;
+  * (quick tier: cbrt_full on a seeded quarter of every binade; a sixth of the real-function rows also under a directed direction)
+  * all of the above (except the real-function tables in the thorough tier) once more while the calling thread's rounding direction is upward / downward /
     toward zero (the functions are integer algorithms; rint, nearbyint, lrint, llrint - which C defines to follow the direction and the
     library documents as following its own, fixed, mode - may answer either way there).
 NOT decided: the 1-ulp bounds of atan2, pow, erf, erfc, lgamma, tgamma on ordinary arguments - the MANIFEST claim says so.
@@ -27,6 +30,8 @@ from vlib.core import MachineryError
 ROUND = ["ceil", "floor", "trunc", "round", "rint", "nearbyint", "lround", "lrint", "llround", "llrint", "frexp", "modf", "ilogb", "logb", "cbrt_full"]
 TRANS = ["exp", "exp2", "expm1", "log", "log10", "log2", "log1p", "cbrt", "sin", "cos", "tan", "sincos", "asin", "acos", "atan",
          "sinh", "cosh", "tanh", "asinh", "acosh", "atanh", "erf", "erfc", "lgamma", "tgamma"]
+ROUND_FAST = [f for f in ROUND if f != "cbrt_full"]
+MULTI_ROUTES = ["sincos_routes"]
 BIN = ["fmod", "remainder", "remquo", "fdim", "fmax", "fmin", "nextafter", "atan2", "pow", "hypot"]
 BIN_EXACT = ["fmod", "remainder", "remquo", "fdim", "fmax", "fmin", "nextafter"]
 
@@ -50,6 +55,10 @@ def hard_cases():
 def real_sample(seed, f, hard):
     """quick tier: every exponent field x boundary fractions x both signs (zeros, subnormals, infinities, NaNs included), every
     509th half from a seeded offset, seeded random halves, the listed hard cases of f and their neighbours' sign twins."""
+    if f == "sincos":            # both outputs of the combined entry point over the argument sets of sin AND of cos (same oracle, same arguments)
+        xs = real_sample(seed, "sin", hard) + real_sample(seed, "cos", hard)
+        seen = set()
+        return [x for x in xs if not (x in seen or seen.add(x))]
     rnd = random.Random(seed * 2741 + sum(map(ord, f)))
     xs = []
     for e in range(32):
@@ -58,9 +67,8 @@ def real_sample(seed, f, hard):
                 xs.append(sg | (e << 10) | m)
     xs += list(range(seed % 509, 65536, 509))
     xs += [rnd.getrandbits(16) for _ in range(64)]
-    for g in ([f] if f != "sincos" else ["sin", "cos"]):
-        for h in hard.get(g, []):
-            xs += [h, h ^ 0x8000]
+    for h in hard.get(f, []):
+        xs += [h, h ^ 0x8000]
     seen, out = set(), []
     for x in xs:
         if x not in seen:
@@ -75,15 +83,21 @@ def real_jobs(ctx, counts):
     hard = hard_cases()
     counts["real_functions"] = len(REAL)
     if ctx.quick:
-        n = 0
+        n = n_rm = 0
         for i, fs in enumerate(hg.chunks(REAL, 5)):
             rows = [hg.hdr(S=[0])]
             for f in fs:
                 xs = real_sample(ctx.seed, f, hard)
                 n += len(xs)
-                rows += [{"k": "ux", "f": f, "cr": 1, "x": c} for c in hg.chunks(xs, 32)]
+                crs = [{"k": "ux", "f": f, "cr": 1, "x": c} for c in hg.chunks(xs, 32)]
+                # and a sixth of the rows once more under a directed rounding direction of the calling thread: the statement fixes the
+                # result (THE correctly rounded value in the library's own round-to-nearest mode) whatever the thread's direction is
+                rmrows = hg.with_rm(crs[(ctx.seed + len(rows)) % 6::6], ctx.seed + len(rows))
+                n_rm += sum(len(r["x"]) for r in rmrows)
+                rows += crs + rmrows
             jobs.append(hg.Job("real-%d" % i, rows))
         counts["real_arguments_per_function"] = n // len(REAL)
+        counts["real_evaluations_under_directed_rounding"] = n_rm
     else:
         for f in REAL:           # sincos too: both outputs of the combined entry point, on every argument
             for part, lo in enumerate(range(0, 65536, 16384)):
@@ -106,7 +120,7 @@ def hypot3_triples(seed, quick):
         for b in G:
             for c in G:
                 X.append(a); Y.append(b); Z.append(c)
-    for _ in range(30000 if quick else 300000):
+    for _ in range(8000 if quick else 300000):
         t = rnd.random()
         e = rnd.randrange(0, 31)
 
@@ -220,8 +234,14 @@ def make_jobs(ctx, counts):
     counts["cases"] = {}
     for op in ("mod", "add", "cmp"):
         jobs.append(hg.case_job(ctx, op, counts["cases"], "C09"))
-    for i, fs in enumerate(hg.chunks(ROUND, 5)):
+    for i, fs in enumerate(hg.chunks(ROUND_FAST if q else ROUND, 5)):
         jobs.append(hg.Job("round-%d" % i, [hg.hdr(S=[0])] + hg.unary_rows(fs)))
+    if q:       # cbrt against wide-integer cubes is the slowest exhaustive table: quick takes one quarter of every binade (seeded), thorough all
+        jobs.append(hg.Job("round-cbrt", [hg.hdr(S=[0])] + hg.unary_rows(["cbrt_full"], block=256)[(sd % 4)::4]))
+    # functions with several outputs: both outputs of sincos on ALL 65 536 arguments against the stand-alone sin and cos (the correctly
+    # rounded value is unique), and once more under a directed rounding direction
+    mrows = hg.unary_rows(MULTI_ROUTES)
+    jobs.append(hg.Job("routes", [hg.hdr(S=[0])] + mrows + hg.with_rm(mrows[(sd % 4)::4], sd + 2)))
     for i, fs in enumerate(hg.chunks(TRANS, 9)):
         jobs.append(hg.Job("annexf-%d" % i, [hg.hdr(S=[0])] + hg.unary_rows(fs)))
     jobs.append(hg.specials_job("specials", BIN + ["hypot_full", "nexttoward"]))
@@ -263,7 +283,7 @@ def make_jobs(ctx, counts):
             rows += [{"k": "ld", "f": f, "a": a} for a in S]
         jobs.append(hg.Job("ldexp", rows))
     # ---- once more under a directed rounding direction of the calling thread
-    jobs.append(hg.Job("round-rm", [hg.hdr(S=[0])] + hg.with_rm(hg.unary_rows(ROUND)[(sd % 2)::(2 if q else 1)], sd)))
+    jobs.append(hg.Job("round-rm", [hg.hdr(S=[0])] + hg.with_rm(hg.unary_rows(ROUND_FAST if q else ROUND)[(sd % 4)::(4 if q else 1)], sd)))
     jobs.append(hg.Job("annexf-rm", [hg.hdr(S=[0])] + hg.with_rm(hg.unary_rows(TRANS)[(sd % 4)::(8 if q else 3)], sd + 1)))
     rsub = S[(sd % 4)::(16 if q else 8)] + hg.REQUIRED
     rows = [hg.hdr(S=S)]
@@ -354,7 +374,7 @@ def run(ctx):
     # that were witnessed.  Grid pairs, repetitions under another rounding direction or build and the transcendental tables
     # (mostly "no exact requirement") are not counted.
     exhaustive_unary = sum(s["evaluations"] for s in summaries if s["job"].startswith("round-") and s["job"] != "round-rm")
-    real_pairs = sum(s["evaluations"] for s in real) - len(und)
+    real_pairs = sum(s["evaluations"] for s in real) - len(und) - counts.get("real_evaluations_under_directed_rounding", 0)   # repetitions not counted
     ctx.cov["distinct_nontrivial"] = exhaustive_unary + sum(ncases.values()) + real_pairs
     ctx.notes["distinct_nontrivial_is"] = ("%d (function, argument) pairs of the exhaustive unary tables + %d witnessed cases of the case analysis + %d decided "
                                            "(function, argument) pairs of the real-function tables" % (exhaustive_unary, sum(ncases.values()), real_pairs))
@@ -372,7 +392,8 @@ def run(ctx):
              "half that half is the correctly rounded result and the recorded result must equal it (expm1, log1p: within one ulp of it); %s arguments per "
              "function, %d undecided. Further: "
              "TLA+ oracle Half.tla evaluated by TLC on every recorded evaluation (one state each). Exhaustive over all 65 536 halves for ceil floor trunc "
-             "round rint nearbyint lround lrint llround llrint frexp modf ilogb logb, for cbrt (correctly rounded) and for the Annex F special cases / exactly "
+             "round rint nearbyint lround lrint llround llrint frexp modf ilogb logb, for both outputs of sincos against sin and cos (two routes to the unique "
+             "correctly rounded value), for cbrt (correctly rounded; quick tier: a seeded quarter of every binade) and for the Annex F special cases / exactly "
              "representable results of 25 transcendental functions; fmod remainder remquo fdim fmax fmin nextafter nexttoward and the Annex F cases of atan2 pow "
              "hypot on S x S with |S|=%d, on the 28 special operands among themselves and on one witness pair per case of the oracle's case analysis (%s); hypot "
              "correctly rounded on a %d x %d sub-grid and hypot(x, y, z) on %d triples; ldexp/scalbn/scalbln on %s x %d exponents (-50..50 and extremes). Every "
